@@ -1,7 +1,7 @@
 ------------------------- MODULE MCPubSubDecorators -------------------------
 EXTENDS PubSubDecorators
 Cfgs == [gen : {"ok", "fail", "none"}, allow : BOOLEAN, inner : {"accept", "error"}]
-Srcs == {"meta", "ctx", "none"}
+Srcs == {"meta", "metafor", "ctx", "none"}
 Batches == UNION {[1..n -> Srcs] : n \in 1..3}
 VARIABLES cfg, batch
 v == <<cfg, batch>>
@@ -12,7 +12,7 @@ E == Expected(cfg, batch)
 OneCallPerBatch == E.calls \in {0, 1} /\ (E.calls = 0 => E.err)
 \* every forwarded message carries exactly one stamp chosen by precedence (or none, only if allowed)
 ExactlyOneStamp == E.calls = 1 => \A i \in 1..Len(batch) :
-                      /\ (batch[i] = "meta" => E.from[i] = "meta")
+                      /\ (batch[i] \in {"meta", "metafor"} => E.from[i] = "meta")
                       /\ (batch[i] = "ctx" => E.from[i] = "ctx")
                       /\ (batch[i] = "none" => E.from[i] \in {"gen", "nodelay"})
                       /\ (E.from[i] = "nodelay" => cfg.allow /\ cfg.gen = "none")
